@@ -5,6 +5,7 @@
 package zzsim
 
 import (
+	"os"
 	"cmp"
 	"fmt"
 	"iter"
@@ -134,6 +135,7 @@ type Sched struct {
 	Stuck      string
 	Panics     []string
 	OnStep     func(step int) // invariant hook, runs at quiescence on the scheduler goroutine
+	Quiesced   func() bool    // called at quiescence; true: something was woken, wait for quiescence again
 	StopWhen   func() bool    // evaluated at quiescence
 	fgDone     func() bool
 	yieldCount map[string]int
@@ -191,23 +193,17 @@ func (s *Sched) SetReplay(decisions []string, guided bool) {
 	}
 }
 
+// schedTrace: diagnosis only (VERIF_SCHED_TRACE=<file>): every step's tasks and where they wait.
+var schedTrace = func() *os.File {
+	if p := os.Getenv("VERIF_SCHED_TRACE"); p != "" {
+		f, _ := os.Create(p)
+		return f
+	}
+	return nil
+}()
+
 func (s *Sched) Attach() { active.Store(s) }
 func (s *Sched) Detach() { active.CompareAndSwap(s, nil) }
-
-func gid() uint64 {
-	var buf [48]byte
-	n := runtime.Stack(buf[:], false)
-	// "goroutine 123 ["
-	var id uint64
-	for i := 10; i < n; i++ {
-		c := buf[i]
-		if c < '0' || c > '9' {
-			break
-		}
-		id = id*10 + uint64(c-'0')
-	}
-	return id
-}
 
 func (s *Sched) cur() *Task {
 	g := gid()
@@ -891,6 +887,14 @@ func (s *Sched) Run(done func() bool) string {
 	idle := 0
 	for {
 		synctest.Wait()
+		// the world's transport delivers what is in flight now, with everything blocked; whoever
+		// that wakes runs until blocked again before a task is released
+		for n := 0; s.Quiesced != nil && s.Quiesced(); n++ {
+			synctest.Wait()
+			if n > 1000000 {
+				panic("zzsim: the world does not come to rest")
+			}
+		}
 		select {
 		case <-s.parkNotify:
 		default:
@@ -909,6 +913,17 @@ func (s *Sched) Run(done func() bool) string {
 			return "deadline"
 		}
 		elig, nextWake, _, _, _ := s.snapshot(now)
+		if schedTrace != nil {
+			fmt.Fprintf(schedTrace, "step %d t=%d:", s.Steps, now.Sub(s.Start))
+			s.mu.Lock()
+			for _, t := range s.tasks {
+				if t.state == stParked || t.state == stRunning {
+					fmt.Fprintf(schedTrace, " %s@%s/%d", t.Name, t.site, t.state)
+				}
+			}
+			s.mu.Unlock()
+			fmt.Fprintln(schedTrace)
+		}
 		fgElig := false
 		for _, t := range elig {
 			if !t.Background {
